@@ -48,6 +48,11 @@ def r1_contraction(repo: Repo, rep):
             continue
         rep.check(R, dump(r.args[1]) == "self.output_space", fi.site(p.ret_node), fi.fq, "labelled with self.output_space", dump(r.args[1]), dump(r.args[1]))
         out = r.args[0]
+        # the output is the inner product of trunk and branch features and nothing else: no further learnable / stored tensor takes part
+        inside_trunk = {id(x) for c in ast.walk(out) if isinstance(c, ast.Call) and dump(c.func) == "self.trunk" for a in c.args for x in ast.walk(a)}
+        extra = sorted({dump(a) for a in ast.walk(out) if isinstance(a, ast.Attribute) and id(a) not in inside_trunk and isinstance(a.value, ast.Name) and a.value.id == "self"
+                        and a.attr not in ("trunk", "branch", "output_space")})
+        rep.check(R, not extra, fi.site(p.ret_node), fi.fq, "only trunk features, branch features and shapes enter the output", f"further terms: {extra}", f"extra terms {extra}")
         from ..absdom.axes import AxesEval, NotAxes, Scrambled
         four = [pol for g, pol, k in p.guards if "shape" in dump(g) and "< 4" in dump(g)]
         trunk_axes = [("N",), ("D",), ("K",)] if (four and four[0]) else [("F",), ("N",), ("D",), ("K",)]
@@ -200,6 +205,37 @@ def r3_fast_path(repo: Repo, rep):
             must, mustnot = need[k]
             ok = must <= names and not (mustnot & names)
             rep.check(R, ok, bw.site(p.ret_node), bw.fq, f"gradient w.r.t. `{inputs[k]}` is built from {sorted(must)}", f"uses {sorted(names - {'ctx'})}", f"grad{k}: {sorted(names - {'ctx'})}")
+    # the copy axis exists only for inputs of rank >= 3: a rank-2 input (locations x features) gets a leading axis before its first entry is taken
+    R7 = rep.rule("R-C09-7", "linear.forward takes the first copy (input[0] / input[:1]) only from a tensor that has a copy axis: under `len(input.shape) < 3` "
+                  "the input is given a leading axis first", floor=1,
+                  why="for a rank-2 trunk input the first axis are the locations: every location would get the features of location 0")
+    inp = inputs[0]
+    for p in paths(fw.node):
+        if p.ret is RAISE:
+            continue
+        low = [pol for g, pol, k in p.guards if k == "if" and dump(g).replace(" ", "") in (f"len({inp}.shape)<3", f"len({inp}.shape)<=2", f"len({inp}.shape)==2")]
+        high = [not pol for g, pol, k in p.guards if k == "if" and dump(g).replace(" ", "") in (f"len({inp}.shape)>=3", f"len({inp}.shape)>2")]
+        low_rank = (low and low[0]) or (high and high[0])
+        decided = bool(low or high)
+        firsts = []
+        for e in p.events:
+            if e.value is None:
+                continue
+            for n in ast.walk(e.value):
+                if isinstance(n, ast.Subscript) and (dump(n.slice) in ("0", ":1", "slice(None, 1, None)") or (isinstance(n.slice, ast.Slice) and n.slice.lower is None and dump(n.slice.upper) == "1")):
+                    firsts.append(n.value)
+        if p.ret is not None:
+            for n in ast.walk(p.ret):
+                if isinstance(n, ast.Subscript) and (dump(n.slice) == "0" or (isinstance(n.slice, ast.Slice) and n.slice.lower is None and n.slice.upper is not None and dump(n.slice.upper) == "1")):
+                    firsts.append(n.value)
+        bases = sorted({dump(b) for b in firsts if inp in {x.id for x in ast.walk(b) if isinstance(x, ast.Name)}})
+        if not bases:
+            continue
+        raw = [b for b in bases if b == inp]
+        if raw and (not decided or low_rank):
+            rep.violation(R7, fw.site(), fw.fq, "a rank-2 input receives a leading axis before its first copy is taken", f"first copy of the raw `{inp}` taken " + ("without a rank test" if not decided else "although the rank is below 3"), "first copy of a rank-2 input")
+        else:
+            rep.ok(R7, fw.site(), fw.fq, "first copy taken from a tensor with a copy axis", f"bases {bases}; rank test {'<3' if low_rank else '>=3'}")
     tl = repo.cls(f"{DO}.layers.TrunkLinear")
     f = tl.methods.get("forward")
     rep.saw(f)
